@@ -624,12 +624,19 @@ def sx_getitem(d, k):
             if isinstance(k, SymInt):
                 n = len(d)
                 C = core.CTX
-                if n > 2048:
-                    raise Unsupported("symbolic index into a sequence of %d elements" % n)
-                for i in range(n):
-                    if C.branch(z3.Or(k.t == i, k.t == i - n)):
-                        return d[i]
-                raise IndexError("list index out of range")
+                if C.branch(z3.Or(k.t >= n, k.t < -n)):
+                    raise IndexError("list index out of range")
+                kt = k.t
+                if C.branch(kt < 0):
+                    kt = kt + n
+                lo, hi = 0, n          # bisect: O(log n) decisions per path
+                while hi - lo > 1:
+                    mid = (lo + hi) // 2
+                    if C.branch(kt < mid):
+                        hi = mid
+                    else:
+                        lo = mid
+                return d[lo]
     elif type(d) is dict and _has_symkey(d):
         x = _dict_find(d, k)
         if x is _MISSING:
